@@ -1591,9 +1591,9 @@ def unify(tys):
         return "Dec"
     if ts <= {"Int", "Dec", "F"}:
         return "F"
-    if ts <= {"Dec", "ODec"}:
+    if ts <= {"Dec", "ODec", "NoneT"}:
         return "ODec"
-    if ts <= {"S", "OS"}:
+    if ts <= {"S", "OS", "NoneT"}:
         return "OS"
     raise Unsupported("branches give a variable the types %s" % (ts,))
 
@@ -1746,7 +1746,7 @@ def gen_all(repo, out):
          ["parse_vector", "check_mandatory", "handle_scope", "add_missing_optional", "get_value", "get_value_description", "compute_isc_base", "compute_isc",
           "compute_esc", "compute_base_score", "compute_temporal_score", "compute_modified_isc_base",
           "compute_modified_isc_30", "compute_modified_isc", "compute_modified_esc", "compute_environmental_score",
-          "clean_vector", "severities", "temporal_vector", "environmental_vector", "as_json"],
+          "clean_vector", "severities", "temporal_vector", "environmental_vector", "as_json", "scores"],
          "check_mandatory", None),
         ("Code2", "cvss2.py", "CVSS2", "V2",
          {"METRICS_VALUES": ("Gen.V2.values", D2), "METRICS_VALUE_NAMES": ("Gen.V2.valueNames", N2),
@@ -1757,7 +1757,7 @@ def gen_all(repo, out):
          ["round_to_1_decimal"],
          ["parse_vector", "check_mandatory", "get_value", "get_value_description", "impact_equation", "adjusted_impact_equation", "base_score_equation",
           "compute_base_score", "temporal_score_equation", "compute_temporal_score", "compute_environmental_score",
-          "clean_vector", "severities", "temporal_vector", "environmental_vector", "as_json"],
+          "clean_vector", "severities", "temporal_vector", "environmental_vector", "as_json", "scores"],
          "check_mandatory", None),
         ("Code4", "cvss4.py", "CVSS4", "V4",
          {"METRICS_VALUE_NAMES": ("Gen.V4.valueNames", N2), "METRICS_MANDATORY": ("Gen.V4.mandatory", LS),
@@ -1768,7 +1768,7 @@ def gen_all(repo, out):
           "x": "F"},
          ["final_rounding"],
          ["parse_vector", "check_mandatory", "add_missing_optional", "m", "macroVector", "get_value_description", "clean_vector",
-          "compute_base_score", "compute_severity", "as_json"],
+          "compute_base_score", "compute_severity", "as_json", "scores", "severities"],
          None, [("levels", v4_levels)]),
     ]
     changed = []
